@@ -161,7 +161,7 @@ def c03_same_reaction_wide(E):
 
 
 SUB_REV = [o for o in SUB if o in REVERSIBLE] + ["objective", "objective_coefficient", "remove_genes", "rule"]
-SAME = ["lower_bound", "upper_bound", "bounds", "knock_out", "objective_coefficient"]
+SAME = ["lower_bound", "upper_bound", "bounds", "knock_out", "objective_coefficient", "fix_objective"]
 
 HARNESSES = [
     H("c03_k1", c03_k1, quick=dict(max_paths=20000, time_budget=40), thorough=dict(max_paths=100000, time_budget=100),
